@@ -666,6 +666,26 @@ func ViewOf(u *spec.UserType, name string) *spec.View {
 
 // Project returns the value restricted to the attributes of view, nested
 // result types projected with the view their attribute names (or "default").
+// NestedRT returns the result type an attribute holds - directly, or as the element type of an array - and
+// whether it is the array form. Such an attribute is rendered with a view of ITS type inside every view of the
+// enclosing type.
+func NestedRT(d *spec.Design, f *spec.Attr) (*spec.UserType, bool) {
+	if f == nil || f.Type == nil {
+		return nil, false
+	}
+	t, arr := f.Type, false
+	if t.Kind == spec.Array && t.Elem != nil {
+		t, arr = t.Elem.Type, true
+	}
+	if t.Kind != spec.User {
+		return nil, false
+	}
+	if nu := d.UserType(t.Name); nu != nil && nu.IsResult {
+		return nu, arr
+	}
+	return nil, false
+}
+
 func Project(d *spec.Design, v any, u *spec.UserType, view string) any {
 	obj, ok := v.(map[string]any)
 	vw := ViewOf(u, view)
@@ -679,11 +699,18 @@ func Project(d *spec.Design, v any, u *spec.UserType, view string) any {
 		if f == nil || !present || fv == nil {
 			continue
 		}
-		if f.Type.Kind == spec.User {
-			if nu := d.UserType(f.Type.Name); nu != nil && nu.IsResult {
+		if nu, arr := NestedRT(d, f); nu != nil {
+			if arr {
+				es, _ := fv.([]any)
+				ps := make([]any, len(es))
+				for i, e := range es {
+					ps[i] = Project(d, e, nu, vw.NestedView(f))
+				}
+				out[fn] = ps
+			} else {
 				out[fn] = Project(d, fv, nu, vw.NestedView(f))
-				continue
 			}
+			continue
 		}
 		out[fn] = fv
 	}
@@ -707,8 +734,13 @@ func OutsideView(d *spec.Design, got any, u *spec.UserType, view string, path st
 	for _, f := range u.Attr.Type.Fields {
 		gv := obj[f.Name]
 		if in[f.Name] {
-			if f.Type.Kind == spec.User && gv != nil {
-				if nu := d.UserType(f.Type.Name); nu != nil && nu.IsResult {
+			if nu, arr := NestedRT(d, f); nu != nil && gv != nil {
+				if arr {
+					es, _ := gv.([]any)
+					for i, e := range es {
+						out = append(out, OutsideView(d, e, nu, vw.NestedView(f), fmt.Sprintf("%s.%s[%d]", path, f.Name, i))...)
+					}
+				} else {
 					out = append(out, OutsideView(d, gv, nu, vw.NestedView(f), path+"."+f.Name)...)
 				}
 			}
